@@ -194,9 +194,10 @@ def orInsert (m : List (Nat × Nat)) (k : Nat) : List (Nat × Nat) :=
   | some _ => m
   | none => (k, m.length) :: m
 
-/-- the `.map(|edge| …)` closure over all edges, threading `seen_nodes` -/
-def renumber : List Edge → List (Nat × Nat) → Option (List Edge)
-  | [], _ => some []
+/-- the `.map(|edge| …)` closure over all edges, threading `seen_nodes`; returns the renumbered
+edges and the final map -/
+def renumber : List Edge → List (Nat × Nat) → Option (List Edge × List (Nat × Nat))
+  | [], seen => some ([], seen)
   | e :: es, seen =>
     let seen1 := orInsert seen e.1
     match seen1.lookup e.1 with
@@ -208,31 +209,53 @@ def renumber : List Edge → List (Nat × Nat) → Option (List Edge)
       | some tgt =>
         match renumber es seen2 with
         | none => none
-        | some rest => some ((src, tgt, e.2.2) :: rest)
+        | some (rest, seenF) => some ((src, tgt, e.2.2) :: rest, seenF)
 
-/-- `for target in &target_range { matrix[source * |out| + (target - |in|)] = dijkstra.distance(*target) }` -/
-def fillRow (dist : Nat → Int) (source nIn nOut : Nat) : List Nat → Array Int → Option (Array Int)
-  | [], mx => some mx
-  | target :: ts, mx =>
-    let targetIndex := target - nIn
-    let idx := source * nOut + targetIndex
-    if idx < mx.size then fillRow dist source nIn nOut ts (st mx idx (dist target)) else none
+/-- `nodes.iter().map(|node| *seen_nodes.get(node).expect("renumbering broken")).collect_vec()` -/
+def lookupAll (seen : List (Nat × Nat)) : List Nat → Option (List Nat)
+  | [] => some []
+  | x :: xs =>
+    match seen.lookup x, lookupAll seen xs with
+    | some i, some r => some (i :: r)
+    | _, _ => none
 
-/-- `for source in source_range { dijkstra.run(…); for target … }` on ONE reused search object -/
-def processLoop (adj : Adj) (nn : Nat) (targets : List Nat) (nIn nOut : Nat) :
-    List Nat → O2M → Array Int → Res (O2M × Array Int)
-  | [], st, mx => .ok (st, mx)
-  | source :: rest, st, mx =>
-    -- `graph.edge_range(source)` indexes `node_array[source + 1]`
-    if source ≥ nn then .panic
+/-- `for (target_index, &target) in target_ids.iter().enumerate() { matrix[row + target_index] = dijkstra.distance(target) }`
+(`ti` = the running `target_index`) -/
+def fillRow (dist : Nat → Int) (row : Nat) : Nat → List Nat → Array Int → Option (Array Int)
+  | _, [], mx => some mx
+  | ti, target :: ts, mx =>
+    let idx := row + ti
+    if idx < mx.size then fillRow dist row (ti + 1) ts (st mx idx (dist target)) else none
+
+/-- `for (target_index, &target) in … { if target == source { matrix[row + target_index] = 0 } }` -/
+def zeroRow (source row : Nat) : Nat → List Nat → Array Int → Option (Array Int)
+  | _, [], mx => some mx
+  | ti, target :: ts, mx =>
+    if target == source then
+      let idx := row + ti
+      if idx < mx.size then zeroRow source row (ti + 1) ts (st mx idx 0) else none
+    else zeroRow source row (ti + 1) ts mx
+
+/-- `for (source_index, &source) in source_ids.iter().enumerate() { … }` on ONE reused search
+object (`si` = the running `source_index`, `nn = graph.number_of_nodes()`) -/
+def processLoop (adj : Adj) (nn : Nat) (edgesEmpty : Bool) (targetIds : List Nat) (nOut : Nat) :
+    Nat → List Nat → O2M → Array Int → Res (O2M × Array Int)
+  | _, [], st, mx => .ok (st, mx)
+  | si, source :: rest, st, mx =>
+    let row := si * nOut
+    if edgesEmpty || decide (source ≥ nn) then
+      -- a boundary node that no edge of the cell touches reaches only itself
+      match zeroRow source row 0 targetIds mx with
+      | none => .panic
+      | some mx' => processLoop adj nn edgesEmpty targetIds nOut (si + 1) rest st mx'
     else
-      match o2mRun adj nn st source targets with
+      match o2mRun adj nn st source targetIds with
       | .panic => .panic
       | .fuel => .fuel
       | .ok (st', _) =>
-        match fillRow (fun t => st'.distance t) source nIn nOut targets mx with
+        match fillRow (fun t => st'.distance t) row 0 targetIds mx with
         | none => .panic
-        | some mx' => processLoop adj nn targets nIn nOut rest st' mx'
+        | some mx' => processLoop adj nn edgesEmpty targetIds nOut (si + 1) rest st' mx'
 
 /-- `BaseCell::process` -/
 def process (c : BaseCell) : Res MatrixCell :=
@@ -240,18 +263,17 @@ def process (c : BaseCell) : Res MatrixCell :=
   let seen := c.outgoing.foldl orInsert seen
   match renumber c.edges seen with
   | none => .panic
-  | some newEdges =>
-    let nIn := c.incoming.length
+  | some (newEdges, seenF) =>
     let nOut := c.outgoing.length
-    let matrix : Array Int := Array.replicate (nIn * nOut) UMAX
-    let sources := List.range nIn
-    let targets := (List.range nOut).map (· + nIn)
-    if c.edges.isEmpty then .ok { incoming := c.incoming, outgoing := c.outgoing, matrix := matrix }
-    else
-      match processLoop (staticAdj newEdges) (staticNodes newEdges) targets nIn nOut sources O2M.new matrix with
+    let matrix : Array Int := Array.replicate (c.incoming.length * nOut) UMAX
+    match lookupAll seenF c.incoming, lookupAll seenF c.outgoing with
+    | some sourceIds, some targetIds =>
+      match processLoop (staticAdj newEdges) (staticNodes newEdges) c.edges.isEmpty targetIds nOut 0 sourceIds
+              O2M.new matrix with
       | .panic => .panic
       | .fuel => .fuel
       | .ok (_, mx) => .ok { incoming := c.incoming, outgoing := c.outgoing, matrix := mx }
+    | _, _ => .panic
 
 /-- `incoming_nodes.binary_search(&u)` by its contract on a strictly sorted slice: the index of
 `u`, `none` (→ panic in the caller) if absent.  (std's probing order is not modelled; on a strictly
